@@ -80,7 +80,7 @@ def sig_key(c):
 def build_project(cases):
     """One schema + one queries file covering every (kind, wrapper) signature in the three positions."""
     sigs = sorted({(c["kind"], c["w"]) for c in cases})
-    sdl = ["scalar Stamp", "scalar Day", "scalar Raw", "enum Color { RED GREEN in }", "input Leaf { x: Int }"]
+    sdl = ["scalar Stamp", "scalar Day", "scalar Raw", "enum Color { RED GREEN in }", "input Leaf { x: Int y: Int }"]
     qfields, ops = [], []
     for kind, w in sigs:
         t = WRAP[w].format(NAMED[kind])
